@@ -51,6 +51,8 @@ func init() {
 	extend("C03", "C03_cmp", nil, func() []Item {
 		return sItems("op", []string{"Eq", "Gt", "Le", "ElMax", "Equals"}, rankItems(1, 1, 6, nil))
 	})
+	extend("C04", "C04_matmul", func() []Item { return pairItemsLo(4, 4, 2) }, nil)
+	extend("C04", "C04_identities", func() []Item { return items(map[string]int64{"ra": 4, "maxdim": 2}) }, nil)
 	extend("C04", "C04_matmul", nil, func() []Item { return pairItemsLo(2, 2, 4) })
 	extend("C06", "C06_slice", func() []Item { return rankItems(1, 1, 4, nil) }, func() []Item { return rankItems(1, 2, 4, nil) })
 	extend("C06", "C06_flatten", func() []Item { return rankItems(3, 3, 2, nil) }, nil)
